@@ -12,14 +12,16 @@ terms (E1) are extracted on every path and checked.  Every rule is decided on in
   C08.d remainder arithmetic: a trailing `header.length - k` read must leave out exactly what was consumed before it (linear forms);
         widths never come from the size of the remaining input / another header field; item loops continue exactly while fewer
         octets than declared are consumed (evaluated at consumed = 0, 1, L-1, L, L+1) and are not left early
+        a field delegated to a family with a parser that keeps the rest of its buffer is handed a slice cut to the declared length, on every arm
   C08.e length-covers-what-follows: each length the writer emits is followed by exactly the octets it counts
   C08.f text codec symmetry: a text field is written with the codec it is read with, per reader path; a remembered fallback codec is
         the one the writer uses in that object state
+        octets kept as hex text (key ids, fingerprints) are converted length-preservingly for every width the parse arms accept
   C08.g dispatch: every packet tag has a class, versioned classes define both methods; the dispatcher builds the object from the registry
         entry of (root, type[, version]) and falls back to the opaque entry; opaque payload verbatim; parse errors become PGPError
   C08.h update-after-mutation: library code that builds or changes a packet body recomputes its header length after the last change on
         every path; nested lengths before the packet length; the length formulas
-  C08.i header length-of-length follows the length also for parsed old-format headers (with C09.2)
+  C08.i header length codec: the C09 rule families for packet / subpacket header octets (C09.1, C09.2, C09.6, C09.8) under this id
 """
 import ast
 import re
@@ -69,7 +71,7 @@ def run(rep, prog, tier):
     rep.rule('C08.f', 'text fields are written with the codec they are read with (per reader path and remembered fallback)', floor=14)
     rep.rule('C08.g', 'dispatch: packet tags and versioned classes have codecs; unknown type/version -> opaque entry; opaque payload verbatim; parse errors -> PGPError', floor=30)
     rep.rule('C08.h', 'update_hlen after the last body change of a built/changed packet on every path; inner lengths before the packet length', floor=18)
-    rep.rule('C08.i', 'old-format header width follows the length', floor=1)
+    rep.rule('C08.i', 'header length codec (new-format, partial, old-format widths, tag octet, subpacket header) - the C09 families that decide it', floor=15)
     rep.assume('MPI(buf), ECPoint(buf), Klass(buf) and sub.parse(buf) consume exactly what the corresponding writer emits (each is itself a checked pair)')
     rep.assume('value normalisations that are fixed points (flag masks, canonical lengths, MPI bit counts) are allowed by the statement')
 
@@ -81,16 +83,23 @@ def run(rep, prog, tier):
         check_writer_lengths(rep, prog, c, wf)
     check_field_order(rep, prog, classes)
     check_repetition(rep, prog, classes)
+    check_delegate_bounds(rep, prog, classes)
     check_text_codecs(rep, prog)
+    check_value_codecs(rep, prog)
     check_dispatch(rep, prog)
     check_update_hlen(rep, prog)
     check_update_hlen_defs(rep, prog)
     from rules import C09
-    # old-format width recomputation (same rule as C09.2, reported here under C08.i)
+    # the header length codec is part of the packet codec: the C09 rule families that decide it (new-format / partial lengths in encoder,
+    # decoder and width selector; old-format width recomputation; tag octet and partial-length accumulation; subpacket header octets)
+    # are evaluated here as well and reported under C08.i
     H = prog.cls('pgpy.types', 'Header')
-    sub = type('R', (), {})
-    before = len(rep.findings)
-    C09.widths(_Proxy(rep, 'C08.i'), prog, H)
+    px = _Proxy(rep, 'C08.i')
+    B = C09.Bench(px, prog)
+    C09.new_format(px, prog, H, B)
+    C09.widths(px, prog, H, B)
+    C09.tag_octet(px, prog, B)
+    C09.subpacket_header(px, prog, B)
 
 
 class _Proxy(object):
@@ -737,6 +746,96 @@ def _breaks_loop(loop, brk):
     return bool(rec(loop.body, loop))
 
 
+# ------------------------------------------------------------------------------------------------ delegates and open readers (C08.d)
+# A sub-parser that keeps "the rest of its buffer" (stores the buffer itself, or reads it with an open upper bound) is only bounded by
+# what it is handed.  A class that delegates a field to a family containing such a parser must hand it a slice already cut to the
+# declared length - on every path - and consume that slice afterwards; handing over the shared buffer in place lets that member of the
+# family swallow (or leave) everything that follows.
+def open_parsers(prog, classes):
+    """class name -> text of the read by which its own `parse` keeps the rest of its buffer."""
+    out = {}
+    for c, pf, wf in classes:
+        if pf.cls is not c or len(pf.params) < 2:
+            continue
+        buf, p0 = pf.params[1], pf.params[0]
+        for s in reader_paths(prog, c, pf):
+            if s.raised is not None:
+                continue
+            reads, _ = codec.reader_sequence(s, buf, cls=c, recv=p0)
+            for r in reads:
+                if r.kind == 'alias' or (r.kind in ('fixed', 'fixed-skip') and (r.width == '' or r.width == 'len(%s)' % buf)):
+                    out.setdefault(c.name, '%s = %s' % (r.target, r.text))
+    return out
+
+
+def field_family(prog, c, attr):
+    """The classes whose instances the code of `c` may put into `self.<attr>`: constructor results stored by __init__, and every class
+    the functions that store to that attribute refer to."""
+    fam = set()
+    k0 = _field_classes(prog, c).get(attr)
+    if k0 is not None:
+        fam.add(k0)
+    for k in c.mro():
+        fns = list(k.methods.values())
+        for pr in k.props.values():
+            fns.extend(pr.setters.values())
+        for f in fns:
+            if not f.params:
+                continue
+            me = f.params[0]
+            stores = any(isinstance(n, ast.Attribute) and isinstance(n.ctx, ast.Store) and n.attr == attr and isinstance(n.value, ast.Name) and n.value.id == me
+                         for n in ast.walk(f.node))
+            if not stores:
+                continue
+            for n in ast.walk(f.node):
+                if isinstance(n, ast.Name) and isinstance(n.ctx, ast.Load):
+                    r = prog.lookup(f.module, n.id)
+                    if hasattr(r, 'mro') and hasattr(r, 'find_method') and r.find_method('parse') is not None:
+                        fam.add(r)
+    return fam
+
+
+def check_delegate_bounds(rep, prog, classes):
+    opened = open_parsers(prog, classes)
+    n = 0
+    for c, pf, wf in classes:
+        if pf.cls is not c or len(pf.params) < 2:
+            continue
+        p0, buf = pf.params[0], pf.params[1]
+        how = {}          # attribute -> {'in place' | 'cut'} over all paths
+        for s in reader_paths(prog, c, pf):
+            if s.raised is not None:
+                continue
+            for ft, args, kw, line, node in s.calls:
+                if ft.endswith('.parse') and ft.startswith(p0 + '.') and '.' not in ft[len(p0) + 1:-len('.parse')] and args:
+                    attr = ft[len(p0) + 1:-len('.parse')]
+                    if attr == 'header':
+                        continue
+                    mode = 'in place' if args[0] == buf else ('cut' if codec.slice_of(args[0], buf) is not None and codec.slice_of(args[0], buf)[1] != '' else None)
+                    if mode:
+                        how.setdefault(attr, {}).setdefault(mode, line)
+        for attr, modes in sorted(how.items()):
+            fam = field_family(prog, c, attr)
+            openk = sorted(set('%s (%s)' % (k.name, opened[k.find_method('parse').cls.name]) for k in fam if k.find_method('parse').cls.name in opened))
+            n += 1
+            where = '%s:%d' % (pf.module.relpath, min(modes.values()))
+            if len(modes) == 2:
+                rep.violation('C08.d', '%s.parse' % c.name, '%s.parse is handed a bounded slice on one path and the shared buffer on another' % attr,
+                              'the field is bounded to the declared length on one arm only: on the other arm the sub-parser works on the shared '
+                              'input buffer and nothing ties what it consumes to this packet', where=where,
+                              expected='the same bounded slice on every path', found=sorted(modes), scenario='delegate %s' % attr)
+                continue
+            ok = not ('in place' in modes and openk)
+            rep.check(ok, 'C08.d', '%s.parse' % c.name,
+                      '%s.parse is handed the shared buffer in place; %s keeps the rest of its buffer' % (attr, ', '.join(sorted(set(x.split(' ')[0] for x in openk)))) if not ok
+                      else '%s.parse: %s, open readers in its family: %s' % (attr, sorted(modes), openk or 'none'),
+                      'a sub-parser that keeps whatever is left in its buffer is handed the shared input buffer: for that member of the family the '
+                      'packet consumes none (or all) of what follows it', where=where,
+                      expected='a slice cut to the declared length, consumed afterwards', found='%s.parse(%s); %s' % (attr, buf, ', '.join(openk)), scenario='delegate %s' % attr)
+    if n < 8:
+        raise AnalysisError('delegated fields: only %d recognised' % n)
+
+
 def _dedupe(seq):
     out = []
     for x in seq:
@@ -860,6 +959,10 @@ def reader_text_fields(prog, c):
                     decs.append((text, args[0], [('latin-1', False)]))        # chr(octet) is the latin-1 reading of one octet
                 elif ft.endswith('.hex') and not args and not kw:
                     decs.append((text, 'hexlify(%s)' % ft[:-len('.hex')], [('ascii', False)]))      # octets.hex(): hex digits, ASCII only
+                elif (ft.endswith('.format') and ft[:1] in ('"', "'") and len(args) == 1) or (ft == 'format' and len(args) == 2):
+                    # a number format of the input (whole or octet by octet): digits, ASCII only
+                    src = s.bound.get(args[0], args[0]) if re.match(r'^\$[\d._]+$', args[0]) else args[0]
+                    decs.append((text, 'hexlify(%s)' % src, [('ascii', False)]))
                 elif ft == 'str' and args and (len(args) >= 2 or 'encoding' in kw):
                     decs.append((text, args[0], (args[1:], kw)))             # str(octets, codec) is octets.decode(codec)
                 elif args:
@@ -1005,6 +1108,145 @@ def check_text_codecs(rep, prog):
                                       'octets read with the fallback codec are written with the primary one', where=wf.where,
                                       expected='a reader path storing %s' % ', '.join('%s=%s' % kv for kv in zip(flags, st)), found=sorted(set(rstates)),
                                       scenario=', '.join('%s=%s' % kv for kv in zip(flags, st)))
+
+
+# ------------------------------------------------------------------------------------------------ C08.f (value codecs)
+# Octets kept as hex text (key ids, fingerprints): the conversion the bytes setter applies and the one the writer applies back must be
+# length-preserving for EVERY width the parse arms hand to the setter.  Octet-wise conversions (hexlify, .hex(), a two-digit format per
+# octet) are width-generic; formatting the whole value as ONE integer keeps the width only when the format is zero-padded to exactly
+# twice the width; an unpadded integer format drops leading zero octets.  The format literal is evaluated by the checker on its own
+# integers (0, 1, 255) - no repository code runs.
+def _hex_format_kind(fmt, per_octet):
+    """'generic' | ('fixed', octets) | 'lossy' | None (not a hex number format) for a str.format literal applied to an integer."""
+    try:
+        z, one, top = fmt.format(0), fmt.format(1), fmt.format(255)
+        int(top, 16)
+    except Exception:
+        return None
+    if top.lower().lstrip('0') != 'ff':
+        return None                                   # not base 16
+    if per_octet:
+        return 'generic' if len(z) == 2 and len(top) == 2 else 'lossy'
+    if len(z) > 1 and len(z) % 2 == 0 and z == '0' * len(z) and len(one) == len(z):
+        return ('fixed', len(z) // 2)
+    return 'lossy'
+
+
+def _reader_hex_conversions(prog, c, f):
+    """[(field, kind, text, line)] for the hex-text conversions of the input the function stores into attributes of the object."""
+    p0, data = f.params[0], f.params[1]
+    out = []
+    for s in Interp(prog, Scenario(inline=noinline, forward_stores=False, model_del=False, self_cls=c)).run(f):
+        convs = []
+        for ft, args, kw, line, node in s.calls:
+            text = _calltext(ft, args, kw)
+            fmt = arg = None
+            if ft.endswith('.format') and ft[:1] in ('"', "'") and len(args) == 1 and not kw:
+                try:
+                    fmt, arg = ast.literal_eval(ft[:-len('.format')]), args[0]
+                except Exception:
+                    fmt = None
+            elif ft == 'format' and len(args) == 2 and re.match(r"^'[^']*'$", args[1]):
+                fmt, arg = '{:%s}' % args[1][1:-1], args[0]
+            if fmt is not None and isinstance(fmt, str):
+                per_octet = re.match(r'^\$[\d._]+$', arg) is not None and codec.mentions(s.bound.get(arg, ''), data)
+                if per_octet or codec.mentions(arg, data):
+                    k = _hex_format_kind(fmt, per_octet)
+                    if k is not None:
+                        convs.append((text, k, line))
+            elif ft.split('.')[-1] == 'hexlify' and args and codec.mentions(args[0], data):
+                convs.append((text, 'generic', line))
+            elif ft.endswith('.hex') and not args and codec.mentions(ft[:-len('.hex')], data):
+                convs.append((text, 'generic', line))
+        for pth, vt, line, val in s.stores:
+            if not (pth.startswith(p0 + '.') and '.' not in pth[len(p0) + 1:]):
+                continue
+            for m in re.finditer(r"\('(%0?\d*[xX])' % ([^()]*(?:\([^()]*\))?[^()]*)\)", vt):        # '%040x' % n
+                if codec.mentions(m.group(2), data):
+                    spec = m.group(1)[1:]
+                    k = _hex_format_kind('{:%s}' % spec, False)
+                    if k is not None:
+                        out.append((pth[len(p0) + 1:].lstrip('_'), k, m.group(0), line))
+            for text, k, ln in convs:
+                if text in vt:
+                    out.append((pth[len(p0) + 1:].lstrip('_'), k, text, ln))
+    return out
+
+
+def check_value_codecs(rep, prog):
+    n = 0
+    for mn in MODS:
+        m = prog.module(mn)
+        for c in m.classes.values():
+            pf = c.find_method('parse')
+            wf = c.find_method('__bytearray__')
+            if pf is None or wf is None or len(pf.params) < 2 or not (c.defines('parse') or c.props):
+                continue
+            fns = [pf] if pf.cls is c else []
+            for pr in c.props.values():
+                for tn in ('bytearray', 'bytes'):
+                    f = pr.setters.get(tn)
+                    if f is not None and f not in fns and len(f.params) >= 2:
+                        fns.append(f)
+            convs = []
+            for f in fns:
+                convs.extend((x, f) for x in _reader_hex_conversions(prog, c, f))
+            if not convs:
+                continue
+            # the widths the parse arms hand to each field
+            p0, buf = pf.params[0], pf.params[1]
+            widths = {}
+            for s in reader_paths(prog, c, pf):
+                if s.raised is not None:
+                    continue
+                reads, _ = codec.reader_sequence(s, buf, cls=c, recv=p0)
+                for r in reads:
+                    for t in [r.target] + list(r.also):
+                        if t and t.startswith(p0 + '.') and '.' not in t[len(p0) + 1:] and r.kind in ('fixed', 'fixed-skip') and r.width is not None:
+                            widths.setdefault(t[len(p0) + 1:].lstrip('_'), set()).add(r.width)
+            # the writer's way back: int(self.f, 16) emitted with a fixed number of octets is valid for that width only
+            wfixed = {}
+            wp0 = wf.params[0]
+            for s, items in codec.writer_items(prog, wf, Scenario(self_cls=c)):
+                for it in merge_consts(items or []):
+                    if it[0] == 'INT':
+                        mm = re.search(r'int\(%s\.(_?[A-Za-z][A-Za-z0-9_]*)[^,]*, 16\)' % re.escape(wp0), it[2])
+                        if mm:
+                            wfixed.setdefault(mm.group(1).lstrip('_'), set()).add(it[1])
+            seen = set()
+            for (fld, kind, text, line), f in convs:
+                if (fld, kind, text) in seen:
+                    continue
+                seen.add((fld, kind, text))
+                ws = widths.get(fld, set())
+                where = '%s:%d' % (f.module.relpath, line)
+                n += 1
+                if kind == 'generic':
+                    ok, why = True, 'octet-wise hex, any width'
+                elif kind == 'lossy':
+                    ok, why = False, 'the format does not keep leading zeros: the text is shorter than twice the number of octets'
+                else:
+                    bad = sorted(w for w in ws if codec._int(w) != kind[1])
+                    ok = bool(ws) and not bad
+                    why = 'one integer zero-padded to %d octets; the reader hands it %s' % (kind[1], sorted(ws) or 'widths the checker did not find')
+                rep.check(ok, 'C08.f', '%s.%s' % (c.name, fld), 'octets -> hex text by %s: %s' % (text[:80], why),
+                          'octets kept as hex text must come back with the same length for every width the reader accepts; a fixed-width integer '
+                          'format is right for that one width only (a longer value with a small leading octet loses its leading zeros and the '
+                          'subpacket re-serialises shorter than its length octet says)', where=where,
+                          expected='an octet-wise conversion (hexlify / .hex() / two digits per octet), or a zero-padded width equal to every accepted width',
+                          found='%s; accepted widths %s' % (text[:100], sorted(ws)), scenario='hex text of %s' % fld)
+            for fld, wset in sorted(wfixed.items()):
+                ws = widths.get(fld, set())
+                for w in sorted(wset):
+                    n += 1
+                    ok = codec._int(w) is not None and bool(ws) and all(codec._int(x) == codec._int(w) for x in ws) and codec._int(w) > 1
+                    rep.check(ok, 'C08.f', '%s.%s' % (c.name, fld), 'hex text -> octets through one integer of %s octet(s); the reader accepts %s' % (w, sorted(ws)),
+                              'the writer turns the hex text back into octets through an integer of fixed (or minimal) width: leading zero octets are '
+                              'dropped or the value is padded to another width than was read', where=wf.where,
+                              expected='unhexlify / bytes.fromhex, or the one width the reader accepts', found='INT(%s; int(%s, 16))' % (w, fld),
+                              scenario='hex text of %s (writer)' % fld)
+    if n < 5:
+        raise AnalysisError('value codecs: only %d hex-text conversions recognised (key ids and fingerprints)' % n)
 
 
 # ------------------------------------------------------------------------------------------------ C08.g
